@@ -78,6 +78,8 @@ def workload(tier, seed, scale=1.0):
             vals.add((1 << (bl - 1)) | rnd.getrandbits(bl - 1))
             vals.add((1 << bl) - 1)
             vals.add(1 << (bl - 1))
+    from ..core import special_values
+    vals |= set(special_values())
     for v in sorted(vals):
         nw = (v.bit_length() + 31) // 32
         cmds.append(cmd_ser(v, 'U', ('ser', 'U', nw, v.bit_length() % 64)))
